@@ -54,3 +54,9 @@ claim("C01",
   "Decides structural necessary conditions of C01 for every event history and schedule: cache/request/used/assigned updates are paired and correctly ordered in every entry point (nothing left behind, nothing removed after the pod left the cache); upward deltas are new-minus-old around the mutation; what a parent loses on delete/re-parent is the max-limited request it had received; a tree rebuild replays every saved quota; the manager's maps are written only under the hierarchy write lock. It does not decide that the deltas add up to recomputed totals, nor read-side races on QuotaInfo.",
   "trusts go/ssa and the rule tables in internal/rules/c01.go; per-QuotaInfo locking through scopedLockForQuotaInfo is not modelled (element-wise lock lists are outside access-path locksets)",
   "DESIGN.md §4 C01")
+
+claim("C03",
+  "custom SSA rules: conditional-constant exploration of PreFilter and the ancestor walk (no success exit before / after a failed comparison), operand provenance of the comparisons, sibling rule on the limit selector, must-reach rule for Reserve/Unreserve, write-lock atomicity rule for ReservePod/UnreservePod, both-deltas rule",
+  "Decides structural necessary conditions of C03 for every history and switch combination: a pod cannot be admitted unless used+masked request <= the snapshot's limit (and nonPreemptibleUsed+request <= min for non-preemptible pods), the limit is runtime exactly when runtime quota is on, parent checking walks every ancestor with the same selector and stops only at the root, reserve/unreserve always reach the accounting and do check+update under the write lock, and a pod's used / non-preemptible-used change is applied unless both deltas are zero. It does not decide the closed-loop invariant used <= max nor completeness of rejections.",
+  "trusts go/ssa and the rule tables in internal/rules/c03.go; relies on C01 for the accounting itself",
+  "DESIGN.md §4 C03")
